@@ -21,13 +21,21 @@ from ..tlc import TLCError
 
 PROPS = ["RejectedChangesNothing", "OnlySetMutates", "BindNumericIsSameObject", "ProbsSumToOne"]
 INVS = ["EveryLiveObjectNormalised", "FlipTwiceIdentity", "FlipKeepsNorm"]
+ALLOPS = '{"new", "dicke", "set", "bind", "probs", "flip", "saveload"}'
+
+
+def sym(name):
+    """the states' symbols; b carries an assumption ('all initial amplitude vectors ... symbolic': a symbol is more than its name)"""
+    import sympy
+
+    return sympy.Symbol(name, real=True) if name == "b" else sympy.Symbol(name)
 
 
 def amp_py(a):
     import sympy
 
     if "s" in a:
-        return sympy.Symbol(a["s"])
+        return sym(a["s"])
     z = ring(a["n"])
     return complex(z)
 
@@ -99,7 +107,7 @@ def replay_walk(ctx, steps):
                 for k in ("a", "b"):
                     v = st["map"][k]
                     if v != {"s": k}:
-                        m[sympy.Symbol(k)] = amp_py(v)
+                        m[sym(k)] = amp_py(v)
                 res = pool[o - 1].bind(m)
             elif op == "probs":
                 res = pool[o - 1].get_probabilities()
@@ -134,7 +142,7 @@ def replay_walk(ctx, steps):
                     if res is pool[o - 1]:
                         return [("bind-in-place", "%s: bind of a symbolic state returned the same object" % where)]
                     pool.append(res)
-            if op in ("probs", "flip", "saveload"):
+            if op in ("probs", "flip", "saveload") and all("n" in a for a in st["pre"][o - 1]):
                 # route independence: the same abstract state reached through the other constructor route (one entry
                 # symbolic, bound afterwards) must answer the same call the same way
                 pre_vec = st["pre"][o - 1]
@@ -207,8 +215,9 @@ def link_alternatives(edges):
 def check_dicke(ctx):
     from orquestra.quantum.wavefunction import Wavefunction
 
-    for n in range(1, 6):
-        for k in range(0, n + 1):
+    wide = [(9, 1), (9, 4), (10, 2), (10, 9)] + ([] if ctx.tier == "quick" else [(11, 5), (12, 3), (12, 12)])
+    for n, k in [(n, k) for n in range(1, 6) for k in range(0, n + 1)] + wide:
+        if True:
             c = {"k": "dicke", "n": n, "w": k}
             ctx.count(c)
             try:
@@ -240,7 +249,7 @@ def record_histories(ctx, n_hist):
         return {"s": x} if x in ("a", "b") else {"n": x}
 
     def val(x):
-        return sympy.Symbol(x) if x in ("a", "b") else NUMS[x]
+        return sym(x) if x in ("a", "b") else NUMS[x]
 
     def proj(wf):
         out = []
@@ -275,7 +284,7 @@ def record_histories(ctx, n_hist):
                     m = {k: rng.choice(names + [k, k]) for k in ("a", "b")}
                     call = {"op": "bind", "obj": o + 1, "i": 0, "val": enc("0"), "map": {k: enc(m[k]) for k in m}, "vec": []}
                     try:
-                        r = wf.bind({sympy.Symbol(k): val(v) for k, v in m.items() if v != k})
+                        r = wf.bind({sym(k): val(v) for k, v in m.items() if v != k})
                         if r is not wf:
                             pool.append(r)
                         out = "ok"
@@ -317,7 +326,7 @@ def validate_histories(ctx, traces):
     with open(path, "w") as f:
         json.dump(traces, f)
     total = sum(len(t["events"]) + 1 for t in traces)
-    res = ctx.tlc("WavefunctionTrace", init="TInit", next_="TNext", constants=dict(MaxObjs=3, Depth=50, NPaths=1, Emitting=False, EmitAllBelow=99, EmitOneIn=1), invariants=["EveryLiveObjectNormalised"], properties=["RejectedChangesNothing"], workers=1, env={"TRACE_FILE": path}, coverage=False, timeout=1200, allow_violation=True)
+    res = ctx.tlc("WavefunctionTrace", init="TInit", next_="TNext", constants=dict(MaxObjs=3, Depth=50, NPaths=1, Emitting=False, EmitAllBelow=99, EmitOneIn=1, OpSet=ALLOPS), invariants=["EveryLiveObjectNormalised"], properties=["RejectedChangesNothing"], workers=1, env={"TRACE_FILE": path}, coverage=False, timeout=1200, allow_violation=True)
     bad = {}
     for rj in res.emitted:
         if "reject" in rj:
@@ -342,7 +351,7 @@ def run(ctx):
     quick = ctx.tier == "quick"
     depth = 4
     ctx.bounds = {"MaxObjs": 2, "Depth(levels)": depth, "amplitude alphabet": 10, "initial vectors": 14}
-    res = ctx.tlc("Wavefunction", constants=dict(MaxObjs=2, Depth=depth, NPaths=1, Emitting=True, EmitAllBelow=3, EmitOneIn=60 if quick else 6), invariants=INVS, properties=PROPS, constraints=["DepthBound"], action_constraints=["Emit"], view="ViewObjs", coverage=False, timeout=2400)
+    res = ctx.tlc("Wavefunction", constants=dict(MaxObjs=2, Depth=depth, NPaths=1, Emitting=True, EmitAllBelow=3, EmitOneIn=60 if quick else 6, OpSet=ALLOPS), invariants=INVS, properties=PROPS, constraints=["DepthBound"], action_constraints=["Emit"], view="ViewObjs", coverage=False, timeout=2400)
     edges = res.emitted
     if len(edges) < 1000:
         raise TLCError("Wavefunction exported only %d transitions" % len(edges))
@@ -359,11 +368,29 @@ def run(ctx):
         ctx.count({"k": "walk", "steps": [(s["op"], s["obj"], s["out"]) for s in w], "last": {k: w[-1][k] for k in ("op", "obj", "i", "val", "map", "vec", "out")}}, kind="walk")
         for key_, msg in replay_walk(ctx, w):
             ctx.violation(key_, msg, {"k": "walk", "steps": [{k: v for k, v in s.items() if not k.startswith("_")} for s in w]})
+    # symbolic and mixed states reversed, then bound / assigned to / reversed again (three live objects, three calls)
+    sf = ctx.tlc("Wavefunction", constants=dict(MaxObjs=3, Depth=4, NPaths=1, Emitting=True, EmitAllBelow=99, EmitOneIn=1, OpSet='{"new", "flip", "bind", "set"}'), invariants=INVS, properties=PROPS, constraints=["DepthBound"], action_constraints=["SymFlipOnly", "Emit"], view="ViewObjs", coverage=False, timeout=2400)
+    g2 = Graph(sf.emitted, [])
+
+    def on_flipped_symbolic(e):
+        pre = e["pre"]
+        return e["op"] in ("bind", "set", "flip") and len(pre) == 2 and e["obj"] == 2 and any("s" in a for a in pre[1]) and pre[1] != pre[0] and sorted(map(json.dumps, pre[0])) == sorted(map(json.dumps, pre[1]))
+
+    nsf = 0
+    for w in g2.walks(rng, limit=1500 if quick else 15000, select=on_flipped_symbolic):
+        if [s_["op"] for s_ in w[:2]] != ["new", "flip"]:
+            continue
+        nsf += 1
+        ctx.count({"k": "walk", "steps": [(s_["op"], s_["obj"], s_["out"]) for s_ in w], "last": {k: w[-1][k] for k in ("op", "obj", "i", "val", "map", "vec", "out")}}, kind="walk on a reversed symbolic state")
+        for key_, msg in replay_walk(ctx, w):
+            ctx.violation(key_, msg, {"k": "walk", "steps": [{k: v for k, v in s_.items() if not k.startswith("_")} for s_ in w]})
+    if nsf < 50:
+        raise TLCError("only %d walks new -> flip -> call on the reversed symbolic state" % nsf)
     ctx.exhaustive = False  # TLC's exploration is exhaustive; the export of the deepest level and the replay are samples
     if nw < len(edges):
         ctx.note("replayed %d of %d exported edges (seeded sample)" % (nw, len(edges)))
     # TLC-drawn longer histories
-    pm = ctx.tlc("Wavefunction", next_="PathNext", constants=dict(MaxObjs=3, Depth=10, NPaths=30 if quick else 300, Emitting=True, EmitAllBelow=99, EmitOneIn=1), invariants=INVS, properties=PROPS, constraints=["DepthBound"], action_constraints=["Emit"], view="PathView", workers=1, coverage=False, timeout=2400, extra=["-seed", str(ctx.seed + 7)])
+    pm = ctx.tlc("Wavefunction", next_="PathNext", constants=dict(MaxObjs=3, Depth=10, NPaths=30 if quick else 300, Emitting=True, EmitAllBelow=99, EmitOneIn=1, OpSet=ALLOPS), invariants=INVS, properties=PROPS, constraints=["DepthBound"], action_constraints=["Emit"], view="PathView", workers=1, coverage=False, timeout=2400, extra=["-seed", str(ctx.seed + 7)])
     paths = {}
     for e in pm.emitted:
         paths.setdefault(e["pid"], []).append(e)
